@@ -1,8 +1,8 @@
 """C07 — rheology models return the exact, passive complex modulus of their law (formula level)."""
 from __future__ import annotations
-import ast
+import ast, os
 from ..core import expr as X, ratfunc as R
-from ..core.interp import Interp, Obj, Arr, FuncRef, Builtin
+from ..core.interp import Interp, Obj, Arr, FuncRef, Builtin, concrete
 from ..core.report import AnalysisError
 from ..frontend.pyfront import Repo
 from .common import eps_mask, need_class, need_func, methods, make_eq
@@ -78,10 +78,24 @@ def run(chk):
     region = {'low': False, 'high': False, 'lowmod': False}
 
     def if_test(itp, st, fr):
-        t = ast.unparse(st.test)
-        if 'MIN_FREQUENCY' in t: return region['low']
-        if 'MAX_FREQUENCY' in t: return region['high']
-        if 'MIN_MODULUS' in t: return region['lowmod']
+        """the extreme-value guards of _implementation, recognised by what they compare (however the threshold is written: a named constant, a literal, a local):
+        |frequency| below a tiny constant -> 'low', above a huge one (or isinf) -> 'high', modulus below a small constant -> 'lowmod'"""
+        kinds = set()
+        for cmp_ in [n_ for n_ in ast.walk(st.test) if isinstance(n_, ast.Compare) and len(n_.ops) == 1]:
+            try:
+                a_ = X.lift(itp.eval(cmp_.left, fr)); b_ = X.lift(itp.eval(cmp_.comparators[0], fr))
+            except Exception:
+                continue
+            op = type(cmp_.ops[0]).__name__
+            for sym, cst, o_ in ((a_, b_, op), (b_, a_, {'Lt': 'Gt', 'LtE': 'GtE', 'Gt': 'Lt', 'GtE': 'LtE'}.get(op, op))):
+                c_ = concrete(cst)
+                if c_ is None or concrete(sym) is not None: continue
+                names = {t_.val[0] for t_ in X.atoms_of(sym)}
+                if names and names <= {'omega', 'omega_signed'} and o_ in ('Lt', 'LtE') and 0 <= float(c_) < 1e-6: kinds.add('low')
+                if names and names <= {'omega', 'omega_signed'} and o_ in ('Gt', 'GtE') and float(c_) > 1e3: kinds.add('high')
+                if names == {'mu'} and o_ in ('Lt', 'LtE') and 0 <= float(c_) < 1e3: kinds.add('lowmod')
+        if len(kinds) == 1:
+            return region[kinds.pop()]
         return None
 
     def stmt(itp, st, fr):
